@@ -1,6 +1,7 @@
 package rules
 
 import (
+	"regexp"
 	"go/ast"
 	"go/token"
 	"go/types"
@@ -17,6 +18,14 @@ func init() {
 	register(&core.Rule{ID: "S1", Min: 150,
 		Doc: "Opcode totality: every ir.Op constant has a non-nil row in x86._OpFuncTab whose handler is the method named _asm_<op>, and a case in vm.Execute's opcode switch; every jitdec._Op constant has a row in jitdec._OpFuncTab naming _asm_<op>. Sibling executors cover the same opcodes.",
 		Run: runS1})
+	register(&core.Rule{ID: "S2p", Min: 20,
+		Doc: "The parse-side rows of S2: every dispatch variable of internal/native whose name marks a routine that decides which text is accepted (skip_*, validate_*, get_by_path, value, vstring, vnumber, vsigned, vunsigned, lspace, parse_*, unquote) is bound, in useSSE and in useAVX2, exactly once and to the same-named routine of that build; binding S_skip_one to the non-validating skip_one_fast makes the decoder accept malformed values it skips.",
+		Run: func(c *core.Ctx) {
+			runS2f(c, func(cn string) bool {
+				i := strings.LastIndex(cn, "/")
+				return i >= 0 && s2ParseRow.MatchString(strings.ToLower(cn[i+1:]))
+			})
+		}})
 	register(&core.Rule{ID: "S2", Min: 100,
 		Doc: "Native dispatch: useSSE and useAVX2 assign the same set of package variables, each once, each from its own implementation package (sse / avx2) and from the identically named member (S_x <- S_x, __CamelName <- F_snake_name); every S_*/__* variable that is read anywhere is assigned by both; the generated native_export.go rows are self-consistent (_text_X, _cfunc_X, \"_X\", &S_X, &F_X) and identical in both packages; F_X have identical types in both packages and match the dispatcher variable's type.",
 		Run: runS2})
@@ -176,7 +185,13 @@ type dispRow struct {
 	pos    token.Pos
 }
 
-func runS2(c *core.Ctx) {
+func runS2(c0 *core.Ctx) { runS2f(c0, nil) }
+
+// parse-side dispatch rows: the natives that decide what text is accepted
+var s2ParseRow = regexp.MustCompile(`skip|valid|get_by_path|value|vstring|vnumber|vsigned|vunsigned|lspace|parse|unquote`)
+
+func runS2f(c0 *core.Ctx, keep func(construct string) bool) {
+	c := &filtCtx{c0, keep}
 	p := c.Prog
 	nat := p.Pkg("internal/native")
 	if nat == nil || core.FuncDecl(nat, "", "useSSE") == nil {
@@ -228,13 +243,19 @@ func runS2(c *core.Ctx) {
 		for lo, rs := range rows[fn] {
 			cn := "internal/native." + fn + "/" + lo.Name()
 			r := rs[0]
-			if len(rs) > 1 {
-				c.Bad(cn, rs[1].pos, "%s assigned %d times", lo.Name(), len(rs))
-				continue
-			}
 			want := lo.Name()
 			if strings.HasPrefix(want, "__") {
 				want = "F_" + camelToSnake(strings.TrimPrefix(want, "__"))
+			}
+			if len(rs) > 1 {
+				msg := ""
+				for _, x := range rs {
+					if x.rhs != want || x.rhsPkg != wantPkg {
+						msg = "; the assignment at " + p.Pos(x.pos) + " binds it to " + x.rhsPkg + "." + x.rhs + " (expected " + want + "), and the last assignment wins"
+					}
+				}
+				c.Bad(cn, rs[1].pos, "%s assigned %d times%s", lo.Name(), len(rs), msg)
+				continue
 			}
 			switch {
 			case r.rhsPkg != wantPkg:
@@ -444,5 +465,33 @@ func runS2b(c *core.Ctx) {
 	}
 	if n == 0 {
 		c.Undecided("emitters/avx2-branch", token.NoPos, "no cpu.HasAVX2 branch found in the emitters")
+	}
+}
+
+// filtCtx restricts a rule's obligations to the constructs accepted by keep (nil: all).
+type filtCtx struct {
+	*core.Ctx
+	keep func(construct string) bool
+}
+
+func (w *filtCtx) ok(cn string) bool { return w.keep == nil || w.keep(cn) }
+func (w *filtCtx) OK(cn string, pos token.Pos, f string, a ...interface{}) {
+	if w.ok(cn) {
+		w.Ctx.OK(cn, pos, f, a...)
+	}
+}
+func (w *filtCtx) Bad(cn string, pos token.Pos, f string, a ...interface{}) {
+	if w.ok(cn) {
+		w.Ctx.Bad(cn, pos, f, a...)
+	}
+}
+func (w *filtCtx) Undecided(cn string, pos token.Pos, f string, a ...interface{}) {
+	if w.ok(cn) || !strings.Contains(cn, "/") {
+		w.Ctx.Undecided(cn, pos, f, a...)
+	}
+}
+func (w *filtCtx) Check(cond bool, cn string, pos token.Pos, okMsg, badMsg string) {
+	if w.ok(cn) {
+		w.Ctx.Check(cond, cn, pos, okMsg, badMsg)
 	}
 }
